@@ -28,7 +28,7 @@ ASSUMPTIONS = [
     "float64 configurations (finite-difference oracle); tolerance 2e-4*(1+|ref|)",
     "points whose +-h perturbations straddle a periodic seam are skipped and counted",
     "q is the proposal object's own log_prob; L and pi are the harness's float64 reference functions",
-    "BlackJAX: the log-density function handed to blackjax.rmh is captured and evaluated on concrete points after each mutation (nuts/hmc never run)",
+    "BlackJAX: the log-density function handed to blackjax.rmh / nuts / hmc is captured and evaluated on concrete points after each mutation (nuts / hmc are served by gradient-free stand-in kernels: the library's own code of those branches runs, the real integrators do not)",
 ]
 REQUIRED_COUNTERS = ["tapped_evaluations", "finite_judged", "neginf_judged", "adversarial_judged", "nan_region_judged"]
 
@@ -227,13 +227,18 @@ def run_analytic(case, counters, viol, nontrivial):
         import blackjax
 
         captured = []
-        orig_rmh = blackjax.rmh
+        orig_kernels = {name: getattr(blackjax, name) for name in ("rmh", "nuts", "hmc")}
 
-        def rmh(logdensity_fn, proposal_generator, *aa, **kk):
-            captured.append(logdensity_fn)
-            return orig_rmh(logdensity_fn, proposal_generator, *aa, **kk)
+        def capturing(name):
+            def kernel(logdensity_fn, *aa, **kk):
+                captured.append(logdensity_fn)
+                counters[f"blackjax_{name}_kernels_built"] += 1
+                return orig_kernels[name](logdensity_fn, *aa, **kk)
 
-        blackjax.rmh = rmh
+            return kernel
+
+        for name in orig_kernels:
+            setattr(blackjax, name, capturing(name))
         from aspire.samplers.smc.blackjax import BlackJAXSMC
 
         smcrun.install()
@@ -260,7 +265,8 @@ def run_analytic(case, counters, viol, nontrivial):
         minipcn.TAPS.remove(tap)
         emcee.TAPS.remove(tap)
         if sampler == "blackjax_smc":
-            blackjax.rmh = orig_rmh
+            for name, fn in orig_kernels.items():
+                setattr(blackjax, name, fn)
             BlackJAXSMC.mutate = inner
     if res.exc is not None:
         raise res.exc
